@@ -397,17 +397,20 @@ loadlistfd(int fd, char ***bufa, checkfunc cf)
 	size_t j;
 	size_t k = j = 0;
 	while (k < i) {
+		const size_t elen = strlen(buf + k);
+
 		if (!cf || !cf(buf + k))
 			j++;
 		else {
 			const char *s[] = {"input file contains invalid entry '", buf + k, "'", NULL};
 
 			log_writen(LOG_WARNING, s);
-			/* mark this entry as invalid */
-			buf[k++] = '\0';
+			/* mark the whole entry as invalid, otherwise the part behind the
+			 * first character would show up as entry after compaction */
+			memset(buf + k, 0, elen);
 			haserr = 1;
 		}
-		k += strlen(buf + k) + 1;
+		k += elen + 1;
 	}
 	if (!j) {
 		/* only invalid entries in file */
